@@ -137,6 +137,31 @@ pub fn freelist_boundary_history(p: u64) -> Vec<Action> {
     acts
 }
 
+/// A free list of more than one page while a reader pins everything (nothing can be taken from the
+/// free set, so every new list page is allocated at the end of the file), then released.
+/// Needs a pre-sized file: the thread that holds the reader cannot grow the file.
+pub fn pinned_freelist_history(p: u64) -> Vec<Action> {
+    let cap = (p - 32) / 8;
+    let n = cap + 60;
+    let val = format!("F*{}", p * 6 / 10);
+    let mut ops = vec![OpSpec::bucket("create", &[], "f")];
+    for i in 0..n {
+        ops.push(OpSpec::put(&["f"], &format!("f{:05}", i), &val));
+    }
+    let mut acts = vec![tx(ops), tx(vec![OpSpec::put(&["f"], "f00000", &val)]), Action::OpenReader];
+    let mut next = 0u64;
+    for chunk in [cap + 10, 5, 5, 12] {
+        acts.push(tx((next..next + chunk).map(|i| OpSpec::del(&["f"], &format!("f{:05}", i))).collect()));
+        next += chunk;
+    }
+    acts.push(Action::CloseReader(0));
+    acts.push(tx(vec![OpSpec::put(&["f"], "after", "v*8")]));
+    acts.push(tx(vec![OpSpec::put(&["f"], "after2", &val)]));
+    acts.push(Action::Reopen);
+    acts.push(tx(vec![OpSpec::put(&["f"], "after3", &val), OpSpec::del(&["f"], "after")]));
+    acts
+}
+
 /// A run that has to extend the file several times, starting from the configured initial size.
 pub fn growth_history(p: u64) -> Vec<Action> {
     // each commit adds about 9 MiB, so every commit crosses at least one 8 MiB extension step
